@@ -220,10 +220,14 @@ def min_backward(grad, a, axis, keepdims):
 
 
 def squeeze_forward(a:np.ndarray, axis:'None | int | tuple'):
-    out = a
-    can_apply = len(a.shape) > 0 and (axis is None or a.shape[axis] == 1)
-    if can_apply: out = np.squeeze(a, axis)
-    return out
+    if axis is None: return np.squeeze(a)
+    axes = tuple(axis) if isinstance(axis, (tuple, list)) else (axis,)
+    ndim = max(a.ndim, 1) # a 0-d tensor accepts dim 0 / -1
+    for ax in axes:
+        if not -ndim <= ax < ndim:
+            raise IndexError(f"Dimension out of range (expected to be in range of [{-ndim}, {ndim-1}], but got {ax})")
+    axes = tuple(ax for ax in axes if a.ndim > 0 and a.shape[ax] == 1) # dims of size != 1 are left unchanged
+    return np.squeeze(a, axes) if len(axes) > 0 else a
 
 def squeeze_backward(grad:np.ndarray, a_shape:tuple):
     return grad.reshape(a_shape)
